@@ -11,6 +11,7 @@ from __future__ import annotations
 
 import json
 import os
+import pickle
 import sys
 import traceback
 import warnings
@@ -44,17 +45,63 @@ def run_ref(spec: dict) -> dict:
     import workload as W
 
     cat = W.build_catalogue()
-    pool: dict = {}
+    pool = W.Pool(cat.pool_builders)
     table = {}
+    arrays = {}
     for key in spec["ops"]:
         op = cat.ops[key]
-        if op.uses_pool and op.group not in pool:
-            pool[op.group] = cat.pool_builders[op.group]()
         try:
-            table[key] = ["ok", W.digest_tree(op.fn(pool))]
+            out = op.fn(pool)
+            table[key] = ["ok", W.digest_tree(out)]
+            arrays[key] = W.flatten_tree(out)
         except Exception as e:  # noqa: BLE001
             table[key] = ["raised", type(e).__name__]
+    if spec.get("arrays_out"):
+        with open(spec["arrays_out"], "wb") as f:
+            pickle.dump(arrays, f)
     return {"session": _session(), "table": table, "gaps": W.coverage_gaps(cat), "n_catalogue": len(cat.ops)}
+
+
+TOL = {"float32": 1e-4, "complex64": 1e-4, "float64": 1e-9, "complex128": 1e-9, "float16": 1e-2, "bfloat16": 1e-2}
+
+
+def compare_leaves(got, want):
+    """None if equal within rounding tolerance, else a short description. Structure/dtype/shape must match exactly."""
+    import numpy as np
+
+    if len(got) != len(want):
+        return f"structure: {len(got)} leaves vs {len(want)}"
+    worst = 0.0
+    for i, (a, b) in enumerate(zip(got, want)):
+        a_arr, b_arr = hasattr(a, "dtype"), hasattr(b, "dtype")
+        if a_arr != b_arr:
+            return f"leaf {i}: array vs scalar"
+        if not a_arr:
+            if isinstance(b, float) and isinstance(a, float):
+                if abs(a - b) > 1e-12 * max(1.0, abs(b)):
+                    return f"leaf {i}: scalar {a!r} vs {b!r}"
+            elif a != b:
+                return f"leaf {i}: scalar {a!r} vs {b!r}"
+            continue
+        if a.dtype != b.dtype:
+            return f"leaf {i}: dtype {a.dtype} vs {b.dtype}"
+        if a.shape != b.shape:
+            return f"leaf {i}: shape {a.shape} vs {b.shape}"
+        tol = TOL.get(str(a.dtype))
+        if tol is None:
+            if not np.array_equal(a, b):
+                return f"leaf {i}: {a.dtype} values differ"
+            continue
+        if not np.array_equal(np.isnan(a), np.isnan(b)) or not np.array_equal(np.isinf(a), np.isinf(b)):
+            return f"leaf {i}: non-finite pattern differs"
+        fin = np.isfinite(b)
+        if fin.any():
+            scale = float(np.max(np.abs(b[fin]))) or 1.0
+            err = float(np.max(np.abs(np.where(fin, a, 0) - np.where(fin, b, 0)))) / scale
+            worst = max(worst, err)
+            if err > tol:
+                return f"leaf {i}: relative difference {err:.3e} > {tol:g} ({a.dtype})"
+    return None
 
 
 def run_list(spec: dict) -> dict:
@@ -71,64 +118,146 @@ def run_list(spec: dict) -> dict:
     }
 
 
-def run_sim(spec: dict) -> dict:
-    import workload as W
-    from seams import REAL_MONOTONIC, Seams
+def _run_one_plan(pj, spec, cat, seams, root, exclude, reference, load_arrays):
+    """Executes one plan in the *current* process and returns its run record."""
+    from seams import REAL_MONOTONIC
     from sim import Plan, Simulator, clear_all_caches
+
+    plan = Plan.from_json(pj)
+    if spec.get("cold_start"):
+        clear_all_caches()
+    before_pkg = dict(seams.hits_pkg)
+    sim = Simulator(plan, cat, seams, root, exclude, wall_cap=spec.get("wall_cap", 900.0))
+    sim.record_trace = bool(spec.get("record_trace"))
+    sim.keep_outputs = bool(spec.get("reference_arrays"))
+    t0 = REAL_MONOTONIC()
+    rec = {"seed": plan.seed, "plan": plan.to_json()}
+    try:
+        results, evd = sim.run()
+    except TimeoutError as e:
+        rec.update(error=f"hang: {e}", fatal=True)
+        return rec
+    except Exception as e:  # noqa: BLE001
+        rec.update(error=f"harness: {type(e).__name__}: {e}", tb=traceback.format_exc()[-2000:])
+        return rec
+    mism = []
+    for tid, idx, key, status, dig, x64, leaves in results:
+        if status == "crashed":
+            continue  # abandoned by an injected crash: nothing to compare
+        want = reference[str(int(x64))].get(key)
+        if want is None:
+            continue  # no reference for this operation in this session: not judged
+        if [status, dig] == want:
+            continue
+        m = {"op": key, "thread": tid, "index": idx, "x64": x64, "got": [status, dig[:16]], "want": [want[0], want[1][:16]]}
+        if status != want[0] or status == "raised":
+            m["severity"], m["why"] = "beyond", f"status {status}:{dig[:40]} vs {want[0]}:{want[1][:40]}"
+        else:
+            ref_leaves = load_arrays(x64).get(key)
+            why = compare_leaves(leaves, ref_leaves) if (leaves is not None and ref_leaves is not None) else "bitwise digest differs (no arrays kept for tolerance comparison)"
+            m["severity"], m["why"] = ("rounding", "bitwise different but within rounding tolerance") if why is None else ("beyond", why)
+        mism.append(m)
+    new_hits = {f"{k[0]} @ {k[1]}": v - before_pkg.get(k, 0) for k, v in seams.hits_pkg.items() if v - before_pkg.get(k, 0)}
+    rec.update(
+        event_digest=evd,
+        n_events=sim.n_events,
+        mismatches=mism,
+        seam_hits_from_package=new_hits,
+        seam_hits_total=dict(seams.hits_total),
+        stats=sim.stats,
+        ops=[r[2] for r in results],
+        ops_by_session=[sum(1 for r in results if not r[5] and r[3] != "crashed"), sum(1 for r in results if r[5] and r[3] != "crashed")],
+        wall=REAL_MONOTONIC() - t0,
+        sim_clock=seams.sim_clock,
+    )
+    if sim.record_trace:
+        rec["trace"] = [list(map(str, ev)) for ev in sim.trace]
+    return rec
+
+
+def run_sim(spec: dict) -> dict:
+    """Every plan runs in a forked child of this (never-initialised) interpreter: a pristine process whose
+    whole lifetime is the simulated history, at the price of one fork instead of one interpreter start.
+    A replay in a fresh process therefore sees exactly the state the original run saw."""
+    import signal
+
+    import workload as W
+    from seams import REAL_MONOTONIC, REAL_SLEEP, Seams
 
     root = _package_root()
     exclude = (os.path.join(root, "viz") + "/",)
     cat = W.build_catalogue()
-    reference = spec["reference"]  # key -> [status, digest]
+    reference = spec["reference"]  # {"0": {key: [status, digest]}, "1": {...}} per session precision
+    _arrays: dict = {}
+
+    def load_arrays(x64):
+        k = str(int(x64))
+        if k not in _arrays:
+            merged = {}
+            for p in spec.get("reference_arrays", {}).get(k, []):
+                with open(p, "rb") as f:
+                    merged.update(pickle.load(f))
+            _arrays[k] = merged
+        return _arrays[k]
+
     seams = Seams(root, exclude)
     seams.install(simulate_clock=True)
     out_runs = []
+    hits_total: dict = {}
+    hits_pkg: dict = {}
+    scratch = sys.argv[3] + ".child"
     try:
-        for pj in spec["plans"]:
-            plan = Plan.from_json(pj)
-            if spec.get("cold_start", True):
-                clear_all_caches()  # every run starts cold: replay in a fresh process sees the same cache state
-            before_pkg = dict(seams.hits_pkg)
-            sim = Simulator(plan, cat, seams, root, exclude, wall_cap=spec.get("wall_cap", 900.0))
-            sim.record_trace = bool(spec.get("record_trace"))
-            t0 = REAL_MONOTONIC()
-            rec = {"seed": plan.seed, "plan": plan.to_json()}
-            try:
-                results, evd = sim.run()
-            except TimeoutError as e:
-                rec.update(error=f"hang: {e}")
-                out_runs.append(rec)
-                break  # threads are stuck; this process cannot be reused
-            except Exception as e:  # noqa: BLE001
-                rec.update(error=f"harness: {type(e).__name__}: {e}", tb=traceback.format_exc()[-2000:])
-                out_runs.append(rec)
+        for i, pj in enumerate(spec["plans"]):
+            if os.path.exists(scratch):
+                os.remove(scratch)
+            pid = os.fork()
+            if pid == 0:  # child: pristine copy of the parent, which has never run a JAX computation
+                code = 0
+                try:
+                    rec = _run_one_plan(pj, spec, cat, seams, root, exclude, reference, load_arrays)
+                    with open(scratch + ".tmp", "w") as f:
+                        json.dump(rec, f)
+                    os.replace(scratch + ".tmp", scratch)
+                except BaseException:  # noqa: BLE001
+                    traceback.print_exc()
+                    code = 3
+                finally:
+                    os._exit(code)
+            deadline = REAL_MONOTONIC() + spec.get("wall_cap", 900.0) + 60.0
+            status = None
+            while REAL_MONOTONIC() < deadline:
+                done, status = os.waitpid(pid, os.WNOHANG)
+                if done:
+                    break
+                REAL_SLEEP(0.05)
+            else:
+                os.kill(pid, signal.SIGKILL)
+                os.waitpid(pid, 0)
+                out_runs.append({"seed": pj["seed"], "plan": pj, "error": "hang: child killed after wall cap"})
                 continue
-            mism = []
-            for tid, idx, key, status, dig in results:
-                if status == "crashed":
-                    continue  # abandoned by an injected crash: nothing to compare
-                want = reference.get(key)
-                if want is None:
-                    mism.append({"op": key, "thread": tid, "index": idx, "why": "no reference"})
-                elif [status, dig] != want:
-                    mism.append({"op": key, "thread": tid, "index": idx, "got": [status, dig[:16]], "want": [want[0], want[1][:16]]})
-            new_hits = {f"{k[0]} @ {k[1]}": v - before_pkg.get(k, 0) for k, v in seams.hits_pkg.items() if v - before_pkg.get(k, 0)}
-            rec.update(
-                event_digest=evd,
-                n_events=sim.n_events,
-                mismatches=mism,
-                seam_hits_from_package=new_hits,
-                stats=sim.stats,
-                ops=[r[2] for r in results],
-                wall=REAL_MONOTONIC() - t0,
-                sim_clock=seams.sim_clock,
-            )
-            if sim.record_trace:
-                rec["trace"] = [list(map(str, ev)) for ev in sim.trace]
+            if not os.path.exists(scratch):
+                out_runs.append({"seed": pj["seed"], "plan": pj, "error": f"harness: child exited with status {status} and no result"})
+                continue
+            rec = json.load(open(scratch))
+            for k, v in rec.pop("seam_hits_total", {}).items():
+                hits_total[k] = hits_total.get(k, 0) + v
+            for k, v in rec.get("seam_hits_from_package", {}).items():
+                hits_pkg[k] = hits_pkg.get(k, 0) + v
             out_runs.append(rec)
     finally:
         seams.remove()
-    return {"session": _session(), "runs": out_runs, "seams": seams.report()}
+    return {"session": _session_static(), "runs": out_runs, "seams": {"hits_total": hits_total, "hits_from_package": hits_pkg}}
+
+
+def _session_static():
+    """Session description without touching the JAX backend (the sim parent must stay un-initialised)."""
+    return {
+        "x64": os.environ.get("JAX_ENABLE_X64") == "1",
+        "python": sys.version.split()[0],
+        "hashseed": os.environ.get("PYTHONHASHSEED", "random"),
+        "xla_flags": os.environ.get("XLA_FLAGS", ""),
+        "cpus": len(os.sched_getaffinity(0)),
+    }
 
 
 def main():
